@@ -20,6 +20,7 @@ import (
 	"strings"
 
 	"github.com/matrix-org/gomatrixserverlib/spec"
+	"github.com/tidwall/gjson"
 )
 
 // Event validation errors
@@ -89,6 +90,25 @@ func checkRoomIDIsValid(roomID string) error {
 		return fmt.Errorf("gomatrixserverlib: invalid room ID %q: %w", roomID, err)
 	}
 	return nil
+}
+
+// checkNoDuplicateKeys returns an error if the event repeats one of its top-level keys.
+// The JSON decoders in use disagree on which of the values counts (a later null
+// does not overwrite an earlier string in encoding/json, while the raw fields kept
+// for redaction hold the last value), so the same event would read differently
+// before and after redaction.
+func checkNoDuplicateKeys(eventJSON []byte) error {
+	seen := map[string]struct{}{}
+	var err error
+	gjson.ParseBytes(eventJSON).ForEach(func(key, _ gjson.Result) bool {
+		if _, ok := seen[key.String()]; ok {
+			err = fmt.Errorf("gomatrixserverlib: duplicate key %q in event", key.String())
+			return false
+		}
+		seen[key.String()] = struct{}{}
+		return true
+	})
+	return err
 }
 
 // SplitID splits a matrix ID into a local part and a server name.
